@@ -254,6 +254,15 @@ class _Runtime:
         if all(isinstance(x, (bytes, bytearray, memoryview)) for x in parts):
             return sep.join(parts)
         from .models import bytesjoin_, SymBytes
+        from .blobs import Blob
+        if any(isinstance(x, Blob) for x in parts):
+            # byte strings of symbolic length: concatenation of blobs
+            out = Blob([])
+            for i, x in enumerate(parts):
+                if i and len(sep):
+                    out = out + Blob.of(sep)
+                out = out + Blob.of(x)
+            return out
         return bytesjoin_([SymBytes.of(x) if not isinstance(x, (bytes, SymBytes)) else x for x in parts], sep)
 
 
